@@ -144,6 +144,7 @@ class FloatTok:
 
 class NameTok:
     """a node id (a Name) known only through its ghost identity"""
+    opaque_value = True          # stands for an unknown value of a library type: foreign contracts do not know it
 
     def __init__(self, kid):
         self.kid = kid
